@@ -1,11 +1,11 @@
 //! Tie of the L0 whole-formatter model (coq/theories/Fmt0.v): programs of the fragment, as a tree (S-expression) and as
 //! source text in an arbitrary layout (blanks, tabs, single line breaks, redundant parentheses, semicolons, call sugar,
 //! single quotes, `;` table separators, trailing separators), formatted by the library under every whitespace configuration.
-//!   L0 <id> <windows 0|1> <spaces 0|1> <indent width> <tree> <source hex> <ok|status> <output hex>
+//!   L0 <id> <windows 0|1> <spaces 0|1> <indent width> <quote style> <tree> <source hex> <ok|status> <output hex>
 use crate::common::*;
 
 #[derive(Clone)]
-enum E { Nil, True, False, Va, Num(String), Str(String), Name(String), Field(Box<E>, String), Index(Box<E>, Box<E>), Call(Box<E>, Vec<E>), Method(Box<E>, String, Vec<E>),
+enum E { Nil, True, False, Va, Num(String), Str(char, String), Name(String), Field(Box<E>, String), Index(Box<E>, Box<E>), Call(Box<E>, Vec<E>), Method(Box<E>, String, Vec<E>),
          Un(&'static str, Box<E>), Bin(&'static str, Box<E>, Box<E>), Paren(Box<E>), Table(Vec<F>) }
 #[derive(Clone)]
 enum F { Pos(E), Named(String, E), Key(E, E) }
@@ -15,6 +15,10 @@ enum S { Local(Vec<String>, Vec<E>), Assign(Vec<E>, Vec<E>), Call(E), Do(Vec<S>)
 enum Els { No, Else(Vec<S>), ElseIf(E, Vec<S>, Box<Els>) }
 
 const NAMES: &[&str] = &["a", "b", "foo", "bar", "x1", "_t", "self", "value", "idx", "T"];
+/// (quote used in the source, body as written between the quotes)
+const STRS0: &[(char, &str)] = &[('"', ""), ('\'', ""), ('"', "abc"), ('\'', "abc"), ('"', "hello world"), ('"', "it's"), ('\'', r"it\'s"),
+    ('"', r#"say \"hi\""#), ('\'', r#"say "hi""#), ('"', r"a\nb"), ('\'', r"tab\tend"), ('"', r"\065\x41"), ('\'', r#"both \' and ""#),
+    ('"', r#"both ' and \""#), ('"', r"back\\slash"), ('\'', r#"q\"q"#), ('"', r#"'''\""#), ('\'', r#"""\'"#), ('"', r"\'needless"), ('\'', r"x\-y")];
 const BINS: &[(&str, u32, bool)] = &[("or", 1, false), ("and", 2, false), ("<", 3, false), (">", 3, false), ("<=", 3, false), (">=", 3, false), ("~=", 3, false), ("==", 3, false),
     ("..", 8, true), ("+", 9, false), ("-", 9, false), ("*", 10, false), ("/", 10, false), ("%", 10, false), ("^", 12, true)];
 fn binfo(op: &str) -> (u32, bool) { let b = BINS.iter().find(|b| b.0 == op).unwrap(); (b.1, b.2) }
@@ -25,8 +29,8 @@ impl<'a> G<'a> {
     fn atom(&mut self, vararg: bool) -> E {
         match self.rng.below(9) {
             0 => E::Nil, 1 => E::True, 2 => E::False,
-            3 => E::Num(self.rng.pick(&["0", "1", "42", "007", "123456"]).to_string()),
-            4 => E::Str(self.rng.pick(&["", "abc", "hello world", "x", "a b c"]).to_string()),
+            3 => E::Num(self.rng.pick(&["0", "1", "42", "007", "123456", ".5", "3.25", "1e10", "0xFF", "5.", ".0e1"]).to_string()),
+            4 => { let (q, b) = *self.rng.pick(STRS0); E::Str(q, b.to_string()) }
             5 if vararg => E::Va,
             _ => E::Name(self.name()),
         }
@@ -139,7 +143,7 @@ fn hx(s: &str) -> String { let h = hex(s.as_bytes()); if h == "#" || h.is_empty(
 fn sx_e(e: &E) -> String {
     match e {
         E::Nil => "(nil)".into(), E::True => "(true)".into(), E::False => "(false)".into(), E::Va => "(va)".into(),
-        E::Num(s) => format!("(num_{})", hx(s)), E::Str(s) => format!("(str_{})", hx(s)), E::Name(s) => format!("(name_{})", hx(s)),
+        E::Num(s) => format!("(num_{})", hx(s)), E::Str(_, s) => format!("(str_{})", hx(s)), E::Name(s) => format!("(name_{})", hx(s)),
         E::Field(p, n) => format!("(field_{}_{})", sx_e(p), hx(n)), E::Index(p, k) => format!("(index_{}_{})", sx_e(p), sx_e(k)),
         E::Call(f, a) => format!("(call_{}_({}))", sx_e(f), a.iter().map(sx_e).collect::<Vec<_>>().join("_")),
         E::Method(o, m, a) => format!("(method_{}_{}_({}))", sx_e(o), hx(m), a.iter().map(sx_e).collect::<Vec<_>>().join("_")),
@@ -179,7 +183,7 @@ impl<'a> P<'a> {
     fn args(&mut self, a: &[E]) {
         // call sugar for a single string / table argument
         if a.len() == 1 && self.rng.chance(1, 3) {
-            match &a[0] { E::Str(_) | E::Table(_) => { self.bl(); let x = a[0].clone(); self.e(&x); return; } _ => {} }
+            match &a[0] { E::Str(_, _) | E::Table(_) => { self.bl(); let x = a[0].clone(); self.e(&x); return; } _ => {} }
         }
         self.bl(); self.t("("); self.bl(); self.list(a, |p, x| p.e(x)); self.bl(); self.t(")");
     }
@@ -187,7 +191,7 @@ impl<'a> P<'a> {
         match e {
             E::Nil => self.t("nil"), E::True => self.t("true"), E::False => self.t("false"), E::Va => self.t("..."),
             E::Num(s) => self.t(s), E::Name(s) => self.t(s),
-            E::Str(s) => { let q = if self.rng.chance(1, 3) { "'" } else { "\"" }; self.t(q); self.t(s); self.t(q); }
+            E::Str(q, s) => { let q = q.to_string(); self.t(&q); self.t(s); self.t(&q); }
             E::Field(p, n) => { self.e(p); self.bl(); self.t("."); self.bl(); self.t(n); }
             E::Index(p, k) => { self.e(p); self.bl(); self.t("["); self.bl(); self.e(k); self.bl(); self.t("]"); }
             E::Call(f, a) => { self.e(f); self.args(a); }
@@ -268,14 +272,15 @@ pub fn main(args: &[String]) {
         let src = { let mut p = P { rng: &mut rng, out: String::new() }; for s in &prog { p.s(s); if p.rng.chance(1, 6) { p.t(";"); } let w = *p.rng.pick(&["\n", " ", "\n", " \n"]); p.t(w); } p.out };
         if !parses(&src, syntax("Lua51")) { unparsed += 1; println!("UNPARSED g{} {}", k, hex(src.as_bytes())); continue; }
         for (win, spaces, width) in [(0, 0, 4), (1, 0, 4), (0, 1, 1 + rng.below(8)), (1, 1, 1 + rng.below(8))] {
+            let style = *rng.pick(&["AutoPreferDouble", "AutoPreferSingle", "ForceDouble", "ForceSingle"]);
             let cfg = config(&["syntax=Lua51", "column_width=100000", &format!("line_endings={}", if win == 1 { "Windows" } else { "Unix" }),
-                               &format!("indent_type={}", if spaces == 1 { "Spaces" } else { "Tabs" }), &format!("indent_width={}", width)]);
+                               &format!("indent_type={}", if spaces == 1 { "Spaces" } else { "Tabs" }), &format!("indent_width={}", width), &format!("quote_style={}", style)]);
             records += 1;
             match format_guarded(&src, cfg, None) {
-                Outcome::Ok(o) => println!("L0 g{} {} {} {} {} {} ok {}", k, win, spaces, width, tree, hex(src.as_bytes()), hex(o.as_bytes())),
-                Outcome::ParseError => println!("L0 g{} {} {} {} {} {} parseerror -", k, win, spaces, width, tree, hex(src.as_bytes())),
-                Outcome::OtherError(_) => println!("L0 g{} {} {} {} {} {} error -", k, win, spaces, width, tree, hex(src.as_bytes())),
-                Outcome::Panic(_) => println!("L0 g{} {} {} {} {} {} panic -", k, win, spaces, width, tree, hex(src.as_bytes())),
+                Outcome::Ok(o) => println!("L0 g{} {} {} {} {} {} {} ok {}", k, win, spaces, width, style, tree, hex(src.as_bytes()), hex(o.as_bytes())),
+                Outcome::ParseError => println!("L0 g{} {} {} {} {} {} {} parseerror -", k, win, spaces, width, style, tree, hex(src.as_bytes())),
+                Outcome::OtherError(_) => println!("L0 g{} {} {} {} {} {} {} error -", k, win, spaces, width, style, tree, hex(src.as_bytes())),
+                Outcome::Panic(_) => println!("L0 g{} {} {} {} {} {} {} panic -", k, win, spaces, width, style, tree, hex(src.as_bytes())),
             }
         }
     }
